@@ -347,6 +347,17 @@ fn inner(lines: Vec<Vec<String>>, raw: String) -> Vec<String> {
             if kv(l, "fail_fast").as_deref() == Some("1") {
                 r = r.fail_fast();
             }
+            if kv(l, "which").as_deref() == Some("exclusive") {
+                // a custom classifier: `@exclusive` (not the literal `@serial`) on any level makes a scenario Serial
+                let custom: runner::basic::WhichScenarioFn = |f, ru, s| {
+                    if s.tags.iter().chain(ru.iter().flat_map(|r| &r.tags)).chain(&f.tags).any(|t| t == "exclusive") {
+                        runner::ScenarioType::Serial
+                    } else {
+                        runner::ScenarioType::Concurrent
+                    }
+                };
+                r = r.which_scenario(custom);
+            }
         }
         if l[0] == "cli" {
             cli.concurrency = kv(l, "concurrency").map(|v| v.parse().unwrap());
